@@ -2,7 +2,7 @@
 # Developer tool: run every quick check against every seeded change and write a matrix.
 # Works on a scratch copy of the repository (VERIF_REPO, default: a fresh worktree of /repo's HEAD under /tmp),
 # never on /repo itself. Usage: tools/matrix.sh [out.tsv] [seed-dir-glob]
-OUT=${1:-matrix.tsv}; GLOB=${2:-*}
+OUT=${1:-matrix.tsv}; shift; GLOBS=${*:-*}; NJ=${MATRIX_JOBS:-16}
 HERE=$(cd "$(dirname "$0")/.." && pwd)
 if [ -z "${VERIF_REPO:-}" ]; then
   if [ -n "${VP_RUN_REPO:-}" ]; then export VERIF_REPO=$VP_RUN_REPO; else
@@ -10,17 +10,17 @@ if [ -z "${VERIF_REPO:-}" ]; then
 fi
 cd $HERE
 : > $OUT
-for d in /verif/seeded/$GLOB; do
+for g in $GLOBS; do for d in /verif/seeded/$g; do
   [ -f $d/patch.diff ] || continue
   name=$(basename $d)
   ( cd $VERIF_REPO && git checkout -q -- . && git clean -fdq && git apply $d/patch.diff ) || { echo -e "$name\tPATCH-FAILED" >> $OUT; continue; }
   for id in C01 C02 C03 C04 C05 C06 C07 C08 C09 C10 C11 C12 C13 C14 C15 C16; do
-    out=$(./check $id --tier quick 2>&1); rc=$?
+    out=$(./check $id --tier quick --jobs $NJ 2>&1); rc=$?
     nv=$(echo "$out" | grep -c '^VIOLATION')
     first=$(echo "$out" | grep -m1 '^  C' | cut -c1-160 | tr '\t' ' ')
     echo -e "$name\t$id\t$rc\t$nv\t$first" >> $OUT
   done
   ( cd $VERIF_REPO && git checkout -q -- . && git clean -fdq )
-done
+done; done
 [ -n "${MADE:-}" ] && git -C /repo worktree remove --force $VERIF_REPO
 echo matrix done
